@@ -1,6 +1,7 @@
 import RichModel.Lemmas.Pretty
 import RichModel.Lemmas.PrettyTraverse
 import RichModel.Lemmas.PrettyMeasure
+import RichModel.Lemmas.PrettyConsole
 /-!
 # C16 — pretty-printed data evaluates back to the data
 
@@ -501,6 +502,196 @@ theorem nonpositive_width_is_expand_all (v : Variant) (n : Node) (w ind : Int) (
       have := hpos l hl m hn hm
       omega
 
+
+/-! ## Deepening round 4: everything `Pretty.__rich_console__` yields; the measurement with line boundaries inside
+leaf reprs and with a margin -/
+
+/-- **console_chars_exact.**  Without indent guides (`indent_guides` off, or an `ascii_only` console) the characters
+`Pretty.__rich_console__` yields are exactly those of `pretty_repr` at `options.max_width - margin` with the
+`Pretty`'s own `indent_size` / `expand_all` (minus the four control codes `Text.__init__` strips), preceded by one
+empty renderable exactly when `insert_line` is set and that text has a line break — for every tree, width, margin and
+option set; `justify` / `overflow` are Python's `or`, `no_wrap` is `pick_bool`.  The highlighter does not occur: it is
+a span source. -/
+theorem console_chars_exact (v : Variant) (n : Node) (p : PrettyOpts) (o : ConsoleOpts)
+    (hg : (p.indentGuides && !o.asciiOnly) = false) :
+    prettyConsoleFull cw v n p o = .ok
+      { parts := (if p.insertLine &&
+            (stripControl (render cw v n (o.maxWidth - p.margin) p.indentSize p.expandAll)).contains '\n'
+          then [[]] else []) ++ [stripControl (render cw v n (o.maxWidth - p.margin) p.indentSize p.expandAll)],
+        justify := strOr p.justify o.justify,
+        overflow := strOr p.overflow o.overflow,
+        noWrap := pickBool p.noWrap o.noWrap } := by
+  simp only [prettyConsoleFull, hg, Bool.false_eq_true, if_false]
+  rfl
+
+/-- …and that text is what `pretty_repr(obj, max_width=options.max_width - margin, indent_size=…, max_length=…,
+max_string=…, expand_all=…)` returns for the object (any heap, options as Python receives them). -/
+theorem console_is_pretty_repr (pyRepr : Bool → Str → Str) (v : Variant) (ml ms : Option Int) (h : Heap)
+    (root : Nat) (n : Node) (p : PrettyOpts) (o : ConsoleOpts)
+    (ht : traverseAny pyRepr v ml ms h root = .ok (some n))
+    (hg : (p.indentGuides && !o.asciiOnly) = false) :
+    ∃ s, prettyReprAny cw pyRepr v ml ms h root (o.maxWidth - p.margin) p.indentSize p.expandAll = .ok (some s) ∧
+      (prettyConsoleFull cw v n p o).map (·.parts) =
+        .ok ((if p.insertLine && (stripControl s).contains '\n' then [[]] else []) ++ [stripControl s]) := by
+  refine ⟨render cw v n (o.maxWidth - p.margin) p.indentSize p.expandAll, ?_, ?_⟩
+  · simp only [prettyReprAny, ht]; rfl
+  · rw [console_chars_exact cw v n p o hg]; rfl
+
+/-- a text without the four stripped control codes goes through `Text.__init__` unchanged. -/
+theorem stripControl_id (s : Str)
+    (h : ∀ c ∈ s, ¬ (c.toNat = 8 ∨ c.toNat = 11 ∨ c.toNat = 12 ∨ c.toNat = 13)) : stripControl s = s := by
+  unfold stripControl
+  rw [List.filter_eq_self]
+  intro c hc
+  have := h c hc
+  simp only [Bool.not_eq_true', Bool.or_eq_false_iff, beq_eq_false_iff_ne, ne_eq]
+  simp only [not_or] at this
+  exact ⟨⟨⟨this.1, this.2.1⟩, this.2.2.1⟩, this.2.2.2⟩
+
+/-- **console_guides_chars.**  With indent guides (`indent_guides` on, console not `ascii_only`), a positive
+`indent_size` and no blank line in the text: `__rich_console__` yields the same lines, each with the same number of
+characters and the same characters after its indentation; the indentation itself — `n` blanks — has become
+`new_indent`: `n` characters, each a blank or the guide character, one guide at every whole multiple of
+`indent_size`.  The inserted empty renderable is decided on the guided text. -/
+theorem console_guides_chars (v : Variant) (n : Node) (p : PrettyOpts) (o : ConsoleOpts)
+    (hk : 0 < p.indentSize) (hg : (p.indentGuides && !o.asciiOnly) = true)
+    (hnb : noBlankLine (Syntax.textSplitC
+      (stripControl (render cw v n (o.maxWidth - p.margin) p.indentSize p.expandAll)) false)) :
+    (prettyConsoleFull cw v n p o).map (·.parts) = .ok
+      (let t := Syntax.joinNL ((Syntax.textSplitC
+          (stripControl (render cw v n (o.maxWidth - p.margin) p.indentSize p.expandAll)) false).map
+            (guideLine p.indentSize))
+       (if p.insertLine && t.contains '\n' then [[]] else []) ++ [t]) ∧
+    ∀ l : Str, (guideLine p.indentSize l).length = l.length ∧
+      (guideLine p.indentSize l).drop (Syntax.leadSpaces l) = l.drop (Syntax.leadSpaces l) ∧
+      (guideLine p.indentSize l).take (Syntax.leadSpaces l) = Syntax.newIndent p.indentSize.toNat (Syntax.leadSpaces l) ∧
+      (Syntax.newIndent p.indentSize.toNat (Syntax.leadSpaces l)).length = Syntax.leadSpaces l ∧
+      ∀ c ∈ Syntax.newIndent p.indentSize.toNat (Syntax.leadSpaces l), c = ' ' ∨ c = Syntax.guideChar := by
+  refine ⟨?_, fun l => ⟨guideLine_length _ hk l, guideLine_rest _ hk l, guideLine_indent _ hk l,
+    newIndent_length _ _ (by omega), newIndent_chars _ _⟩⟩
+  have hk0 : p.indentSize ≠ 0 := by omega
+  simp only [prettyConsoleFull, hg, if_true, withIndentGuides, guideLoopI_noBlank _ hk0 _ hnb]
+  rfl
+
+/-- `indent_size = 0` with guides: `divmod(len(indent), 0)` raises at the first line that is not blank. -/
+theorem console_guides_zero_raises (l : Str) (rest : List Str)
+    (hl : (l.drop (Syntax.leadSpaces l)).isEmpty = false) :
+    guideLoopI 0 0 (l :: rest) = .error .zeroDivision := by
+  rw [guideLoopI]; simp [hl]
+
+/-- **pretty_measure_sound_pieces** (extends `pretty_measure_sound` to leaf reprs that contain line boundaries —
+rich measures by the longest piece `str.splitlines` finds).  If `__rich_measure__` at an available width `W` reports
+`m`, then every piece of every line rendered at width `m` is at most `m` cells — provided the *container lines kept
+on one line at `W`* contain no line boundary (a multi-line repr on a line of its own, at any depth, is fine).  The
+hypothesis cannot be dropped: `kept_line_break_needed`. -/
+theorem pretty_measure_sound_pieces (hs : cw ' ' = 1) (v : Variant) (hv : v.measureNoExpandAll = false)
+    (n : Node) (W ind : Int) (ea : Bool) (m : Nat)
+    (hb : ∀ l ∈ renderLines cw v n W ind ea, l.expandable = true → noBreak l.str)
+    (hm : prettyMeasure cw v n W ind ea = .ok m) :
+    ∀ l ∈ renderLines cw v n (m : Int) ind ea, ∀ p ∈ splitlines l.str, cellLen cw p ≤ m := by
+  have hW : ∀ l ∈ renderLines cw v n W ind ea, ∀ p ∈ splitlines l.str, cellLen cw p ≤ m := by
+    intro l hl p hp
+    simp only [prettyMeasure, hv, Bool.false_eq_true, if_false, render] at hm
+    have hmem := pieces_mem_join ((renderLines cw v n W ind ea).map Line.str) l.str
+      (List.mem_map.mpr ⟨l, hl, rfl⟩) p hp
+    exact pyMax_ge _ m hm _ (List.mem_map.mpr ⟨_, hmem, rfl⟩)
+  intro l hl
+  rw [render_is_spec] at hl
+  cases hea : ea with
+  | true =>
+    subst hea
+    have := specLine_ea_width ⟨cw, v, W, ind, true⟩ (m : Int) rfl n (rootLine n)
+    rw [this, ← render_is_spec] at hl
+    exact hW l hl
+  | false =>
+    subst hea
+    refine specLine_boundP ⟨cw, v, W, ind, false⟩ m rfl (fun l => ∀ p ∈ splitlines l.str, cellLen cw p ≤ m)
+      ?_ n (rootLine n) rfl ⟨0, rfl⟩ ?_ ?_ l hl
+    · rintro l ⟨k, hk⟩ hc p hp
+      have := splitlines_piece_le cw l.str p hp
+      rw [Line.cells_eq_str cw hs l k hk] at this
+      exact Nat.le_trans this hc
+    · intro l' hl'
+      rw [← render_is_spec] at hl'
+      exact hW l' hl'
+    · intro l' hl' he
+      rw [← render_is_spec] at hl'
+      obtain ⟨d, hd⟩ := indent_consistent cw v n W ind false l' hl'
+      rw [← Line.cells_eq_str cw hs l' _ hd]
+      by_cases hne : l'.str = []
+      · rw [hne]; exact Nat.zero_le _
+      · have hmem := mem_splitlines_join [l'.str] (by simpa using hb l' hl' he) l'.str (by simp) hne
+        have hj : joinLines [l'.str] = l'.str := by simp [joinLines, List.intercalate]
+        rw [hj] at hmem
+        exact hW l' hl' _ hmem
+
+/-- the tree of `[R, 'bbbbbbbb']` where `repr(R)` is `"a\n"`. -/
+def breakInList : Node :=
+  .mk [] [] ['['] [']'] [] true false true
+    [.mk [] ['a', '\n'] [] [] [] false false false [], .mk [] "'bbbbbbbb'".toList [] [] [] true false false []]
+
+/-- The hypothesis of `pretty_measure_sound_pieces` is needed: `check_length` adds up the cells of a whole line,
+`__rich_measure__` takes the longest piece.  `[R, 'bbbbbbbb']` with `repr(R) == "a\n"` measures 13 (the piece
+`, 'bbbbbbbb']`), does not fit 13 as a whole (15 cells), is expanded at width 13 and then has the line
+`    'bbbbbbbb'` of 14 cells.  (Outside C16's statement: only an object with a custom multi-line `__repr__` inside a
+container that fits gets there; `repr` of `str` / `bytes` escapes every line boundary.) -/
+theorem kept_line_break_needed :
+    prettyMeasure (fun _ => 1) .repaired breakInList 80 4 false = .ok 13 ∧
+    ∃ l ∈ specLine ⟨fun _ => 1, .repaired, 13, 4, false⟩ (rootLine breakInList) breakInList,
+      cellLen (fun _ => 1) l.str = 14 := by
+  constructor
+  · unfold prettyMeasure render; rw [render_is_spec]; dsimp only; decide
+  · decide
+
+/-- **pretty_measure_sound_margin** (the repaired measurement, `margin ≥ 0`).  `__rich_console__` renders at
+`options.max_width - margin`.  If the measurement at available width `W` reports `M`, then what `__rich_console__`
+renders when given exactly `M` — `pretty_repr` at `M - margin` — has no piece wider than `M`. -/
+theorem pretty_measure_sound_margin (hs : cw ' ' = 1) (v : Variant) (hv : v.measureNoExpandAll = false)
+    (n : Node) (W ind : Int) (ea : Bool) (margin : Int) (hmg : 0 ≤ margin) (M : Int)
+    (hb : ∀ l ∈ renderLines cw v n (W - margin) ind ea, l.expandable = true → noBreak l.str)
+    (hm : prettyMeasureM false cw v n W ind ea margin = .ok M) :
+    ∀ l ∈ renderLines cw v n (M - margin) ind ea, ∀ p ∈ splitlines l.str, (cellLen cw p : Int) ≤ M := by
+  simp only [prettyMeasureM, Bool.false_eq_true, if_false] at hm
+  cases h : prettyMeasure cw v n (W - margin) ind ea with
+  | error e => rw [h] at hm; cases hm
+  | ok m =>
+    rw [h] at hm
+    have hM : M = (m : Int) + margin := by cases hm; rfl
+    subst hM
+    have hw : ((m : Int) + margin - margin) = (m : Int) := by omega
+    rw [hw]
+    intro l hl p hp
+    have := pretty_measure_sound_pieces cw hs v hv n (W - margin) ind ea m hb h l hl p hp
+    omega
+
+/-- the tree of `[['aaaa']]`. -/
+def nestedList4 : Node :=
+  .mk [] [] ['['] [']'] [] true false true
+    [.mk [] [] ['['] [']'] [] true false true [.mk [] "'aaaa'".toList [] [] [] true false false []]]
+
+/-- **New finding (deepening round 4): `__rich_measure__` ignores `margin`.**  `Pretty([['aaaa']], margin=1)`
+measures 10 (the one-line form) at available width 80; given exactly 10, `__rich_console__` renders `pretty_repr` at
+width 9, where nothing fits on one line any more, and yields the line `        'aaaa'` of 14 cells: `Panel.fit`
+crops the value. -/
+theorem old_pretty_measure_margin_unsound :
+    prettyMeasureM true (fun _ => 1) .repaired nestedList4 80 4 false 1 = .ok 10 ∧
+    ∃ l ∈ specLine ⟨fun _ => 1, .repaired, 10 - 1, 4, false⟩ (rootLine nestedList4) nestedList4,
+      cellLen (fun _ => 1) l.str = 14 := by
+  constructor
+  · simp only [prettyMeasureM, if_true]
+    unfold prettyMeasure render; rw [render_is_spec]; dsimp only; decide
+  · decide
+
+/-- the repaired measurement of the same value is 11: rendered at 11 - 1 the one-line form (10 cells) fits. -/
+theorem repaired_pretty_measure_margin :
+    prettyMeasureM false (fun _ => 1) .repaired nestedList4 80 4 false 1 = .ok 11 ∧
+    (specLine ⟨fun _ => 1, .repaired, 11 - 1, 4, false⟩ (rootLine nestedList4) nestedList4).map Line.str
+      = ["[['aaaa']]".toList] := by
+  constructor
+  · simp only [prettyMeasureM, Bool.false_eq_true, if_false]
+    unfold prettyMeasure render; rw [render_is_spec]; dsimp only; decide
+  · decide
+
 /-! ## Non-vacuity: the hypotheses are met by concrete non-trivial values -/
 
 /-- `a = [1, a]` (a self-referential list): the heap is well-formed, `traverse` ends with the marker. -/
@@ -517,5 +708,22 @@ example : tupleOfList.str = "([1, 2],)".toList ∧ tupleOfList.compact = "([1,2]
 example : (traverse { cfg0 .today with maxLength := some 1 }
     [.seq .tuple [] [1, 1, 1], .leaf (.atom ['7']) false] 0).map Node.str = some "(7, ... +2)".toList := by decide
 example : toRepr (fun _ s => ['\''] ++ s ++ ['\'']) (some 2) (.str false "hello".toList) = "'he'+3".toList := by decide
+
+/-- round 4: a multi-line repr on a line of its own inside an expanded list meets the hypothesis of
+`pretty_measure_sound_pieces` (no kept container line at `W = 3`), and is measured by its longest piece. -/
+def multiLineInList : Node :=
+  .mk [] [] ['['] [']'] [] true false true [.mk [] "ab\ncdefgh".toList [] [] [] true false false []]
+example : prettyMeasure (fun _ => 1) .repaired multiLineInList 3 4 false = .ok 6 ∧
+    ∀ l ∈ specLine ⟨fun _ => 1, .repaired, 3, 4, false⟩ (rootLine multiLineInList) multiLineInList,
+      l.expandable = false := by
+  constructor
+  · unfold prettyMeasure render; rw [render_is_spec]; dsimp only; decide
+  · decide
+/-- guides: `    1,` with `indent_size = 4` becomes `│   1,`; the text of the F24 tree at width 3 has no blank line. -/
+example : guideLine 4 "    1,".toList = "│   1,".toList := by decide
+example : noBlankLine (Syntax.textSplitC "(\n    [\n        1,\n    ],\n)".toList false) := by
+  unfold noBlankLine; decide
+example : withIndentGuides 4 "(\n    [\n        1,\n    ],\n)".toList = .ok "(\n│   [\n│   │   1,\n│   ],\n)".toList := by
+  decide
 
 end RichModel.C16
